@@ -22,6 +22,9 @@ pub struct Ctl {
     pub fail_at: Vec<u64>,
     /// "r" = reads+seeks, "w" = writes+seeks+flushes, "all"
     pub fail_class: String,
+    /// error kind of an injected failure: "" = Other, "interrupted" = ErrorKind::Interrupted (which
+    /// std's read_exact / write_all loops retry silently)
+    pub fail_kind: String,
     /// index within the class
     pub class_calls: u64,
     /// faults fired so far: (class index, kind of call)
@@ -60,7 +63,8 @@ impl Ctl {
             self.class_calls += 1;
             if self.fail_at.contains(&self.class_calls) {
                 self.fired.push((self.class_calls, kind));
-                return Err(io::Error::new(io::ErrorKind::Other, "injected fault"));
+                let kind = if self.fail_kind == "interrupted" { io::ErrorKind::Interrupted } else { io::ErrorKind::Other };
+                return Err(io::Error::new(kind, "injected fault"));
             }
         }
         Ok(())
